@@ -129,11 +129,6 @@ Obs == ndJsonDeserialize("obs.ndjson")
 SeqOf(x) == [k \in 1..Len(x) |-> x[k]]          \* JSON arrays arrive as tuples already
 NormMask(m) == [nil |-> m.nil, paths |-> m.paths]
 
-\* observations carry an extra field x (populated fields outside the miniature schema)
-Strip(x) == [i |-> x.i, s |-> x.s, o |-> x.o, n |-> x.n, f |-> x.f, r |-> x.r, rm |-> x.rm, m |-> x.m, u |-> x.u]
-StripUpd(t) == [t EXCEPT !.old = Strip(t.old), !.wr = Strip(t.wr), !.res = Strip(t.res), !.post = Strip(t.post)]
-StripProj(t) == [t EXCEPT !.msg = Strip(t.msg), !.res = Strip(t.res), !.post = Strip(t.post)]
-
 Normal(mask) == mask.nil \/ \A j, k \in 1..Len(mask.paths) : j # k => ~IsPrefixOf(mask.paths[j], mask.paths[k])
 UpdFails(t) ==
   LET M == NormMask(t.M)  W == NormMask(t.W)  R == NormMask(t.R)
@@ -163,8 +158,7 @@ ProjFails(t) ==
   \cup (IF MaskValid(mask) /\ t.panic = "" /\ t.res # Project(t.msg, mask) THEN {"not-the-projection"} ELSE {})
   \cup (IF t.panic = "" /\ t.via # "filter" /\ t.post # t.msg THEN {"read-mutated-stored"} ELSE {})
 
-Foreign(t) == IF t.res.x # <<>> \/ t.post.x # <<>> THEN {"foreign-fields"} ELSE {}
-Fails(t) == Foreign(t) \cup (IF t.k = "upd" THEN UpdFails(StripUpd(t)) ELSE ProjFails(StripProj(t)))
+Fails(t) == IF t.k = "upd" THEN UpdFails(t) ELSE ProjFails(t)
 BadLines == { k \in 1..Len(Obs) : Fails(Obs[k]) # {} }
 TraceInit == c = 0
 TraceNext == UNCHANGED c
